@@ -573,6 +573,14 @@ func checkC16(r *core.Result) {
 		r.Ob("G-batch", fmt.Sprintf("a request for all %d corpus files at once gives the same output per file [%s]", ex.BatchFiles[c], c), "corpus:* ("+c+")", len(diff) == 0,
 			"the output for a file depends on the other files of the request (state shared between files in the generator): "+strings.Join(firstN(diff, 5), ", "))
 	}
+	for _, c := range combos {
+		if ex.BatchFiles[c] < 2 {
+			continue
+		}
+		diff := ex.BatchCode[c]
+		r.Ob("G-batch-code", fmt.Sprintf("a request for all %d corpus files at once gives the same declarations per file [%s]", ex.BatchFiles[c], c), "corpus:* ("+c+")", len(diff) == 0,
+			"the code generated for a file depends on the other files of the request (state shared between files in the generator): "+strings.Join(firstN(diff, 5), ", "))
+	}
 	r.Floor("multi-file requests", nBatch, 2)
 	r.Floor("corpus units expanded", len(ex.Units), 70)
 	r.Sample(map[string]interface{}{"units": len(ex.Units), "combos": fmt.Sprint(combosFor(r.Tier))})
